@@ -22,6 +22,7 @@ QUERIES = [
     ("Ofrom", "bad_indices from_oracle_bad from_cases"),
     ("Mtimer", "bad_indices timer_model_bad timer_cases"),
     ("Otimer", "bad_indices timer_oracle_bad timer_cases"),
+    ("Olat", "bad_indices latency_bad latency_cases"),
 ]
 
 
@@ -68,6 +69,59 @@ def busy_flush_play(binpath):
     in (one observation every 300 ms for 6 s): the Timer is re-armed after a
     receive, not after every event.  Checked at t=3.6s: the csv file holds data."""
     return _timed_play(binpath, BUSY_CFG, 3.6)
+
+
+FLOOD_CFG = """role ticker
+  spotlight i=0; while true; do echo "tick $i"; i=$((i+1)); done
+  signal beat event at (?P<ts_now>)tick (?P<event>.*)
+end
+cast
+  tim plays ticker
+end
+script
+  tempo 1s
+  storyline ......
+end
+audience
+  observer watches tim beat
+end
+"""
+
+
+def flood_play(binpath):
+    """Under a flood of events a tick of the flush Timer comes due while events
+    are pending: whoever receives from the Timer must honour its protocol (set
+    Read before the next Reset), or the collector blocks in Reset for ever and
+    the 6 s play never ends.  Checked: the play has ended 25 s after its start."""
+    import subprocess
+    import time as _t
+    tmp = tempfile.mkdtemp(prefix="shk-c18-flood-")
+    try:
+        with open(os.path.join(tmp, "play.cfg"), "w") as f:
+            f.write(FLOOD_CFG)
+        t0 = _t.time()
+        p = subprocess.Popen([binpath, "-o", "out", "--disable-plots", "-q", "play.cfg"], cwd=tmp, start_new_session=True,
+                             stdout=subprocess.DEVNULL, stderr=subprocess.DEVNULL, env=dict(os.environ, SHELL="/bin/bash"))
+        try:
+            p.wait(timeout=25)
+            ended = True
+        except subprocess.TimeoutExpired:
+            ended = False
+            import signal as _sig
+            try:
+                os.killpg(p.pid, _sig.SIGKILL)
+            except OSError:
+                pass
+            p.wait()
+        rows = 0
+        for root, _, files in os.walk(os.path.join(tmp, "out")):
+            for fn in files:
+                if fn.endswith("beat.csv"):
+                    rows = sum(1 for _ in open(os.path.join(root, fn), errors="replace"))
+        return {"ended_within_25s": ended, "exit": p.returncode, "wall_s": round(_t.time() - t0, 2), "rows": rows}
+    finally:
+        subprocess.run(["pkill", "-KILL", "-f", tmp], stdout=subprocess.DEVNULL, stderr=subprocess.DEVNULL)
+        shutil.rmtree(tmp, ignore_errors=True)
 
 
 def flush_ticker_play(binpath):
@@ -127,9 +181,10 @@ def run(tier, seed):
                       {"kind": "correspondence-build", "what": e.what, "output": e.output[-4000:]}, no_input=True)
         return res.finish()
     import concurrent.futures as _cf
-    _ex = _cf.ThreadPoolExecutor(max_workers=2)
+    _ex = _cf.ThreadPoolExecutor(max_workers=3)
     flush_future = _ex.submit(flush_ticker_play, bins["shakespeare"])
     busy_future = _ex.submit(busy_flush_play, bins["shakespeare"])
+    flood_future = _ex.submit(flood_play, bins["shakespeare"])
     out = tempfile.mkdtemp(prefix="shk-c18-")
     try:
         rc, o = vlib.run([bins["c18"], "-seed", str(seed), "-tier", tier, "-out", out], timeout=1800)
@@ -207,6 +262,10 @@ def run(tier, seed):
         c = cases["timer"][idx]
         res.violation("timer-contract", "Timer violates the one-shot contract on %s" % " ".join(c["Ops"]),
                       {"kind": "failing-input", "input": c})
+    for idx in vals["Olat"][:1]:
+        c = cases["latency"][idx]
+        res.violation("timer-fires-before-its-duration", "a Timer armed for %d ns delivered its tick after %d ns (-1 = never)" % (c["D"], c["Elapsed"]),
+                      {"kind": "failing-input", "input": c, "replay": "go: t := timeutil.NewTimer(); start := time.Now(); t.Reset(%d); <-t.C; time.Since(start)" % c["D"]})
     if not res.violations and not res.known:
         # model/implementation disagreement without a property failure
         for name, key in (("Mmicro", "micro"), ("Mfrom", "from"), ("Mtimer", "timer")):
@@ -230,4 +289,10 @@ def run(tier, seed):
                       "the collector's flush ticker no longer fires once per second while events stream in: observations arrive every 300 ms, yet nothing is in csv/ 3.6 s after the start of a 6 s play",
                       {"kind": "failing-input", "config": BUSY_CFG, "observed": bf,
                        "replay": "shakespeare -o out --disable-plots -q play.cfg; look at out/*/csv/observer.tim.beat.csv 3.6 s after the start"})
+    fd = flood_future.result()
+    res.coverage["collector_flood_play"] = fd
+    if not fd["ended_within_25s"]:
+        res.violation("collector-stuck-in-timer-reset-under-a-flood-of-events",
+                      "a 6 s play whose spotlight prints lines as fast as it can has not ended 25 s after its start: the collector no longer honours the Timer protocol (a tick received without Read being set makes the next Reset block for ever)",
+                      {"kind": "failing-input", "config": FLOOD_CFG, "observed": fd, "replay": "shakespeare -o out --disable-plots -q play.cfg (must end after ~6 s)"})
     return res.finish()
